@@ -36,6 +36,9 @@ type c10Case struct {
 	Results []c10Res
 	Order   []int // order of addition (a permutation of the indices)
 	Closes  []int // Close() is called after this many additions (may repeat)
+	// the optional latency histogram of the report (`-type=json -buckets=...`, or a library user's own bounds, which need
+	// not start at 0): attaching it changes none of the metrics
+	Buckets []int64 `json:",omitempty"`
 }
 
 func (r c10Res) result() *vegeta.Result {
@@ -392,6 +395,12 @@ func runC10(c c10Case) (err error) {
 		closes[p]++
 	}
 	var b vegeta.Metrics
+	if len(c.Buckets) > 0 {
+		b.Histogram = &vegeta.Histogram{}
+		for _, d := range c.Buckets {
+			b.Histogram.Buckets = append(b.Histogram.Buckets, time.Duration(d))
+		}
+	}
 	for k := 0; k < closes[0]; k++ {
 		b.Close()
 	}
@@ -594,6 +603,18 @@ func TestC10Metrics(t *testing.T) {
 		default:
 			c.Closes = rapid.SliceOfN(rapid.IntRange(0, n), 1, 6).Draw(t, "closes")
 		}
+		if n > 0 && rapid.IntRange(0, 2).Draw(t, "hist") == 0 {
+			// bounds at and around the latencies of the case, ascending; the first one need not be 0
+			pool := []int64{0, 1, 1000, 1e6, 1e9}
+			for _, r := range c.Results {
+				if r.Latency > 0 && r.Latency < math.MaxInt64 {
+					pool = append(pool, r.Latency, r.Latency+1)
+				}
+			}
+			bs := rapid.SliceOfNDistinct(rapid.SampledFrom(pool), 1, 4, func(v int64) int64 { return v }).Draw(t, "buckets")
+			sort.Slice(bs, func(i, j int) bool { return bs[i] < bs[j] })
+			c.Buckets = bs
+		}
 		sorted := sort.SliceIsSorted(c.Order, func(i, j int) bool { return c.Results[c.Order[i]].TS < c.Results[c.Order[j]].TS })
 		nt := n >= 2 && !sorted && len(c.Closes) >= 1
 		labels := []string{}
@@ -605,6 +626,15 @@ func TestC10Metrics(t *testing.T) {
 		}
 		if len(c.Closes) > 0 {
 			labels = append(labels, "intermediate-close")
+		}
+		if len(c.Buckets) > 0 {
+			labels = append(labels, "histogram-attached")
+			for _, r := range c.Results {
+				if r.Latency < c.Buckets[0] {
+					labels = append(labels, "latency-below-the-first-bound")
+					break
+				}
+			}
 		}
 		sig, _ := json.Marshal(c)
 		vh.Case("C10.metrics", string(sig), nt, labels...)
